@@ -399,7 +399,7 @@ def check(ctx):
     ctx.section(_derived, ctx, prog)
     # --------------------------------------------------------------- C08.8
     from ..core import import_rules
-    n = import_rules(ctx, "c04", ("C04.3", "C04.4"), "C08.8")
+    n = import_rules(ctx, "c04", ("C04.2", "C04.3", "C04.4"), "C08.8")
     ctx.require(n >= 8, "C08.8: alignment-effect instances not found")
     # "every pose remains a valid rigid-body pose" after alignment needs the
     # reflection fix of the Umeyama step; "time cropping has its documented
